@@ -624,6 +624,28 @@ func (c *Ctx) ruleOneFilter() {
 		return
 	}
 	it := ff.AnonFuncs[0]
+	// the filter hands out that iterator and nothing else (no unfiltered view of pass.Files on some path)
+	nret := 0
+	allInstrs(ff, func(b *ssa.BasicBlock, ins ssa.Instruction) {
+		r, ok := ins.(*ssa.Return)
+		if !ok || len(r.Results) != 1 {
+			return
+		}
+		nret++
+		okRet := P.RootsAll(r.Results[0], func(v ssa.Value) bool {
+			for {
+				if ct, isCT := v.(*ssa.ChangeType); isCT {
+					v = ct.X
+					continue
+				}
+				break
+			}
+			mc, isMC := v.(*ssa.MakeClosure)
+			return isMC && mc.Fn == ssa.Value(it)
+		})
+		c.check(okRet, "ONE-FILTER/RETURNS", fmt.Sprintf("%s#return%d", FuncName(ff), nret), P.Pos(r.Pos()), "the filter returns its filtering iterator",
+			"the filter returns something other than its filtering iterator on this path ("+short(P.Desc(r.Results[0]))+"): files that ShouldSkipFile excludes (tests, exclude-paths) are handed to the readers and checkers")
+	})
 	yield := it.Params[0]
 	ny := 0
 	allInstrs(it, func(b *ssa.BasicBlock, ins ssa.Instruction) {
